@@ -3741,3 +3741,50 @@ mod tests {
 		assert!(merkle::verify_signature(&signature, tagged_hash, issuer_sign_pubkey).is_ok());
 	}
 }
+
+#[cfg(feature = "_verif")]
+#[allow(missing_docs)]
+pub mod verif_hooks {
+	use super::*;
+	use crate::blinded_path::BlindedHop;
+	use bitcoin::secp256k1::SecretKey;
+
+	fn key(id: u8) -> PublicKey {
+		let mut b = [0u8; 32];
+		b[31] = core::cmp::max(id, 1);
+		PublicKey::from_secret_key(&Secp256k1::new(), &SecretKey::from_slice(&b).unwrap())
+	}
+
+	/// `check_invoice_signing_pubkey` on an offer TLV stream holding only `issuer_id` and `paths`;
+	/// keys are named by small ids (id i = generator * max(i, 1)), `paths[j]` lists the blinded
+	/// node ids of the hops of path j.
+	pub fn check_invoice_signing_pubkey_probe(
+		signing: u8, issuer_id: Option<u8>, paths: Option<Vec<Vec<u8>>>,
+	) -> bool {
+		let paths = paths.map(|ps| {
+			ps.into_iter()
+				.map(|hops| {
+					let hops = hops
+						.into_iter()
+						.map(|h| BlindedHop { blinded_node_id: key(h), encrypted_payload: Vec::new() })
+						.collect();
+					BlindedMessagePath::from_blinded_path(key(251), key(252), hops)
+				})
+				.collect()
+		});
+		let tlv = OfferTlvStream {
+			chains: None,
+			metadata: None,
+			currency: None,
+			amount: None,
+			description: None,
+			features: None,
+			absolute_expiry: None,
+			paths,
+			issuer: None,
+			quantity_max: None,
+			issuer_id: issuer_id.map(key),
+		};
+		check_invoice_signing_pubkey(&key(signing), &tlv).is_ok()
+	}
+}
